@@ -1,6 +1,6 @@
 (* C03: properties that TODAY'S code violates (findings), refuted on the _current variants of the models. *)
 From Coq Require Import NArith ZArith List Bool Lia.
-From OG Require Import C03.Model C03.Proofs C03.FaultModel C03.FaultProofs.
+From OG Require Import C03.Model C03.Proofs C03.FaultModel C03.FaultProofs C03.ColModel C03.ColProofs.
 Import ListNotations.
 
 (* finding C03-replace-delete-abort: today's delete loop of ReplaceFiles returns at the first failing deletion, after the
@@ -11,3 +11,13 @@ Theorem C03_live_partial_current_refuted :
     r_live r <> live /\ r_live r <> swapped old new live.
 Proof. exact live_partial_current. Qed.
 Print Assumptions C03_live_partial_current_refuted.
+
+(* finding C03-pad-segment-size: today's nil padding (counter arithmetic over max-rows-per-segment) writes too many nils for
+   a chunk that lacks the column and whose inner segments are shorter than max-rows (a file written under a smaller
+   max-rows-per-segment), although no segment is longer than max-rows: the column gets longer than the time column *)
+Theorem C03_counter_padding_current_refuted :
+  exists (m : nat) (srcs : list (src (option Z))),
+    0 < m /\ srcs <> [] /\ Forall (bounded_src m) srcs /\
+    concat (compact_col None m srcs) <> concat (map (expand None) srcs).
+Proof. exact counter_padding_refuted. Qed.
+Print Assumptions C03_counter_padding_current_refuted.
